@@ -432,6 +432,8 @@ class Types:
             return ('lambda', id(e))
         if isinstance(e, ast.Subscript):
             bt = self.expr(e.value, scope)
+            if isinstance(e.slice, ast.Slice):
+                return bt           # a slice of a sequence is a sequence of the same elements
             out = []
             for b in members(bt):
                 if b[0] in ('seq', 'dict'):
